@@ -37,6 +37,14 @@ func (fr *Frame) call(cc *ssa.CallCommon, instr ssa.Value, rt types.Type) *Value
 		}
 	}
 	if callee == nil {
+		// a function value that is a known function constant (passed as an argument)
+		if fv := fr.vals[cc.Value]; fv != nil && len(fv.C) == 1 {
+			if id, ok := litVal(fv.C[0]); ok {
+				if fn := x.eng.funcByID[int(id.Int64())]; fn != nil {
+					return x.callFunction(fr, fn, args, nil, rt)
+				}
+			}
+		}
 		return fr.havocCall("dynamic call", cc.Signature(), args, rt, false)
 	}
 	return x.callFunction(fr, callee, args, bindings, rt)
@@ -351,6 +359,7 @@ func isStreamIface(u *types.Interface) bool {
 
 // havocAll forgets the whole heap.
 func (x *Exec) havocAll(st *State) {
+	st.content = nil
 	st.heap = map[string]Term{}
 	st.base = map[string]Term{}
 	if x.logging {
@@ -500,7 +509,7 @@ func (fr *Frame) rangeCopy(base Term, dlo Term, src Term, slo Term, n Term) Term
 		return c.Name("cp", t)
 	}
 	r := c.Fresh("cp", base.Sort)
-	k := Term{"k$c", SInt}
+	k := Term{S: "k$c", Sort: SInt}
 	body := Eq(Select(r, k), Ite(And(Le(dlo, k), Lt(k, Add(dlo, n))), Select(src, Add(slo, Sub(k, dlo))), Select(base, k)))
 	c.Assume(Forall([]Term{k}, body, Select(r, k)))
 	return r
@@ -525,6 +534,14 @@ func (fr *Frame) appendOp(s, t *Value, rt types.Type) *Value {
 		return &Value{T: rt, C: s.C}
 	}
 	inplace := c.Name("inplace", Le(newLen, cs))
+	var recSeq *SeqV
+	if len(e.layout(el)) == 1 {
+		envPre := &SpecEnv{x: x, st: st}
+		func() {
+			defer func() { recover() }()
+			recSeq = catSeq(envPre.toSeq(s), envPre.toSeq(t))
+		}()
+	}
 	fresh := x.newRef(st, "app")
 	newCap := c.Fresh("acap", SInt)
 	c.Assume(And(Le(newLen, newCap), Le(newCap, BigLit(pow2(47)))))
@@ -533,12 +550,12 @@ func (fr *Frame) appendOp(s, t *Value, rt types.Type) *Value {
 	for j := range e.layout(el) {
 		key, _ := e.heapKey("M", el, j)
 		M := x.heapGet(st, key)
-		rowS := c.Name("rowS", Select(M, s.C[0]))
+		rowS := x.rowOf(M, s.C[0])
 		var rowT, offT Term
 		if srcIsString {
 			rowT, offT = t.C[0], t.C[1]
 		} else {
-			rowT, offT = c.Name("rowT", Select(M, t.C[0])), t.C[1]
+			rowT, offT = x.rowOf(M, t.C[0]), t.C[1]
 		}
 		// one row for both cases: [roff, roff+ls) keeps s, [roff+ls, roff+newLen) holds t,
 		// everything else is unchanged (in place) or zero (fresh array)
@@ -558,7 +575,7 @@ func (fr *Frame) appendOp(s, t *Value, rt types.Type) *Value {
 			row = c.Name("arow", row)
 		} else {
 			row = c.Fresh("arow", rowS.Sort)
-			k := Term{"k$c", SInt}
+			k := Term{S: "k$c", Sort: SInt}
 			rel := Sub(k, roff)
 			body := Eq(Select(row, k),
 				Ite(And(Le(IntLit(0), rel), Lt(rel, ls)), Select(rowS, Add(s.C[1], rel)),
@@ -569,6 +586,12 @@ func (fr *Frame) appendOp(s, t *Value, rt types.Type) *Value {
 		x.heapSetAt(st, key, c.Name("M", Store(M, rref, row)), rref)
 	}
 	out := &Value{T: rt, C: []Term{rref, roff, newLen, c.Name("acap", Ite(inplace, cs, newCap))}}
+	if recSeq != nil {
+		if st.content == nil {
+			st.content = map[string]*contentRec{}
+		}
+		st.content[rref.S] = &contentRec{off: roff, ln: newLen, seq: recSeq}
+	}
 	return out
 }
 
@@ -579,15 +602,38 @@ func (fr *Frame) copyOp(d, s *Value, rt types.Type) *Value {
 	st := fr.cur
 	el := d.T.Underlying().(*types.Slice).Elem()
 	n := c.Name("ncopy", Ite(Le(d.C[2], s.C[2]), d.C[2], s.C[2]))
+	// a copy that overwrites the whole destination: remember the symbolic content
+	var recSeq *SeqV
+	if len(e.layout(el)) == 1 && n.S == d.C[2].S {
+		envPre := &SpecEnv{x: x, st: st}
+		func() {
+			defer func() { recover() }()
+			src := envPre.toSeq(s)
+			if src.HasRow {
+				recSeq = rowSeq(src.Row, src.Off, n)
+			} else {
+				at := src.At
+				recSeq = &SeqV{Len: n, At: at}
+			}
+		}()
+	}
+	defer func() {
+		if recSeq != nil {
+			if st.content == nil {
+				st.content = map[string]*contentRec{}
+			}
+			st.content[d.C[0].S] = &contentRec{off: d.C[1], ln: d.C[2], seq: recSeq}
+		}
+	}()
 	for j := range e.layout(el) {
 		key, _ := e.heapKey("M", el, j)
 		M := x.heapGet(st, key)
-		rowD := c.Name("rowD", Select(M, d.C[0]))
+		rowD := x.rowOf(M, d.C[0])
 		var rowS, offS Term
 		if isString(s.T) {
 			rowS, offS = s.C[0], s.C[1]
 		} else {
-			rowS, offS = c.Name("rowS", Select(M, s.C[0])), s.C[1]
+			rowS, offS = x.rowOf(M, s.C[0]), s.C[1]
 		}
 		row := fr.rangeCopy(rowD, d.C[1], rowS, offS, n)
 		x.heapSetAt(st, key, c.Name("M", Store(M, d.C[0], row)), d.C[0])
@@ -821,28 +867,164 @@ func (fr *Frame) applyContractSig(fc *FuncContract, callee *ssa.Function, sig *t
 			for _, a := range fc.Assigns {
 				fr.havocLocation(envPre, a, fc)
 			}
-			// freshly allocated memory reachable from the results
-			fr.freshResultMemory(sig.Results(), pre)
 		}
 	}
 	res := fr.freshResult("r_"+shortName(fc.Key), rt)
+	if !fc.Pure && fc.HasAsg {
+		// freshly allocated memory reachable from the results
+		tmpVars := map[string]*Value{}
+		bindResults(tmpVars, sig, fc, e, res)
+		fr.freshNames = tmpVars
+		fr.freshResultMemory(sig.Results(), pre, res, fc)
+	}
 	if fc.MayPanic {
 		// the call may not return; nothing to add for partial correctness
 	}
+	before := map[string]bool{}
+	for k := range vars {
+		before[k] = true
+	}
 	bindResults(vars, sig, fc, e, res)
+	fr.resNames = map[string]bool{}
+	for k := range vars {
+		if !before[k] {
+			fr.resNames[k] = true
+		}
+	}
 	envPost := &SpecEnv{x: x, vars: vars, st: st, old: pre, fn: envFn}
+	// string arguments merged from two branches under one condition: state the postcondition
+	// per branch (outside the quantifiers) instead of over merged characters
+	var splitC Term
+	var varsA, varsB map[string]*Value
+	{
+		ok := true
+		for name, v := range vars {
+			if v == nil || v.T == nil || !isString(v.T) {
+				continue
+			}
+			var cnd Term
+			a := &Value{T: v.T, C: append([]Term(nil), v.C...)}
+			b := &Value{T: v.T, C: append([]Term(nil), v.C...)}
+			found := false
+			for j := range v.C {
+				if d, has := x.iteDefs[v.C[j].S]; has {
+					if found && d[0].S != cnd.S {
+						ok = false
+					}
+					cnd, found = d[0], true
+					a.C[j], b.C[j] = d[1], d[2]
+				}
+			}
+			if !found {
+				continue
+			}
+			if splitC.S != "" && splitC.S != cnd.S {
+				ok = false
+			}
+			if varsA == nil {
+				varsA, varsB = map[string]*Value{}, map[string]*Value{}
+			}
+			splitC = cnd
+			varsA[name], varsB[name] = a, b
+		}
+		if !ok {
+			splitC = Term{}
+		}
+	}
 	for _, en := range append(append([]Clause(nil), fc.Ensures...), fc.Defines...) {
-		t, err := envPost.EvalBool(en.E)
+		var t Term
+		var err error
+		if splitC.S != "" {
+			var ta, tb Term
+			ta, err = envPost.with(varsA).EvalAssume(en.E)
+			if err == nil {
+				tb, err = envPost.with(varsB).EvalAssume(en.E)
+			}
+			t = Ite(splitC, ta, tb)
+		} else {
+			t, err = envPost.EvalAssume(en.E)
+		}
 		if err != nil {
 			fr.contractError(en, err)
 			continue
 		}
 		c.Assume(Implies(fr.reach, t))
+		fr.recordResultContent(en.E, envPost)
+		// a clause "result == E" defines the result: use E itself from here on, so that
+		// later terms built from the result are syntactically those of the specification
+		if res != nil && len(res.C) == 1 && res.C[0].Sort == SInt && fc.Pure {
+			rn := res.C[0].S
+			pre1, pre2 := "(= "+rn+" ", " "+rn+")"
+			if strings.HasPrefix(t.S, pre1) && strings.HasSuffix(t.S, ")") {
+				if e2 := t.S[len(pre1) : len(t.S)-1]; !strings.Contains(e2, rn) && balanced(e2) {
+					res.C[0] = c.Name("rdef", Term{S: e2, Sort: SInt})
+				}
+			} else if strings.HasPrefix(t.S, "(= ") && strings.HasSuffix(t.S, pre2) {
+				if e2 := t.S[3 : len(t.S)-len(pre2)]; !strings.Contains(e2, rn) && balanced(e2) {
+					res.C[0] = c.Name("rdef", Term{S: e2, Sort: SInt})
+				}
+			}
+		}
 	}
 	for _, d := range fc.Defines {
 		c.Trust("ghost definition (assumed at call sites, about the fresh result) of " + fc.Key + ": " + d.Text)
 	}
 	return res
+}
+
+// recordResultContent: an unconditional conjunct "r === E" about a byte-slice result records E as
+// the symbolic content of r, so that later uses render exactly like the specification.
+func (fr *Frame) recordResultContent(e Expr, env *SpecEnv) {
+	switch n := e.(type) {
+	case *EBin:
+		if n.Op == "&&" {
+			fr.recordResultContent(n.X, env)
+			fr.recordResultContent(n.Y, env)
+			return
+		}
+		if n.Op != "===" {
+			return
+		}
+		id, ok := n.X.(*EIdent)
+		if !ok {
+			return
+		}
+		v, ok := env.vars[id.Name]
+		if !ok || v == nil || v.T == nil || !isSlice(v.T) || len(fr.x.eng.layout(v.T.Underlying().(*types.Slice).Elem())) != 1 {
+			return
+		}
+		if !fr.resNames[id.Name] {
+			return // only results: parameters are inputs
+		}
+		func() {
+			defer func() { recover() }()
+			sq := env.toSeq(env.eval(n.Y))
+			if fr.cur.content == nil {
+				fr.cur.content = map[string]*contentRec{}
+			}
+			fr.cur.content[v.C[0].S] = &contentRec{off: v.C[1], ln: v.C[2], seq: sq}
+		}()
+	}
+}
+
+func balanced(s string) bool {
+	d := 0
+	for i := 0; i < len(s); i++ {
+		switch s[i] {
+		case '(':
+			d++
+		case ')':
+			d--
+			if d < 0 {
+				return false
+			}
+		case ' ':
+			if d == 0 {
+				return false
+			}
+		}
+	}
+	return d == 0
 }
 
 // havocLocation makes one assignable location arbitrary.
@@ -884,14 +1066,16 @@ func (fr *Frame) havocLocation(env *SpecEnv, a Expr, fc *FuncContract) {
 	}
 }
 
-// freshResultMemory: memory keys reachable from result types may have new rows
-// at fresh references; existing references keep their contents.
-func (fr *Frame) freshResultMemory(rs *types.Tuple, pre *State) {
+// freshResultMemory: memory of freshly allocated results. The row / object directly behind a
+// result slice or pointer becomes arbitrary by a store at the result reference (so older
+// objects are syntactically untouched); memory reachable through nested pointers or slices
+// is arbitrary at all references allocated by the callee (frame axiom for older references).
+func (fr *Frame) freshResultMemory(rs *types.Tuple, pre *State, res *Value, fc *FuncContract) {
 	x := fr.x
 	e := x.eng
 	c := x.ctx
 	seen := map[string]bool{}
-	var keys []string
+	general := map[string]bool{}
 	var walk func(t types.Type, depth int)
 	walk = func(t types.Type, depth int) {
 		if depth > 3 {
@@ -911,7 +1095,7 @@ func (fr *Frame) freshResultMemory(rs *types.Tuple, pre *State) {
 			}
 			for j := range e.layout(el) {
 				key, _ := e.heapKey("H", el, j)
-				keys = append(keys, key)
+				general[key] = true
 			}
 			if !isGhostType(el) {
 				walk(el, depth+1)
@@ -919,26 +1103,108 @@ func (fr *Frame) freshResultMemory(rs *types.Tuple, pre *State) {
 		case *types.Slice:
 			for j := range e.layout(u.Elem()) {
 				key, _ := e.heapKey("M", u.Elem(), j)
-				keys = append(keys, key)
+				general[key] = true
 			}
 			walk(u.Elem(), depth+1)
 		case *types.Struct:
 			for i := 0; i < u.NumFields(); i++ {
 				walk(u.Field(i).Type(), depth)
 			}
-		case *types.Interface:
-			// boxed values of unknown type: not tracked
 		}
 	}
-	for i := 0; i < rs.Len(); i++ {
-		walk(rs.At(i).Type(), 0)
+	type direct struct {
+		key string
+		ref Term
 	}
-	for _, key := range keys {
+	var directs []direct
+	declaredFresh := map[string]bool{} // reference terms of results the contract declares fresh
+	for _, en := range fc.Ensures {
+		markFresh(en.E, func(name string) {
+			if v, ok := fr.freshNames[name]; ok && v != nil && len(v.C) > 0 {
+				declaredFresh[v.C[0].S] = true
+			}
+		})
+	}
+	off := 0
+	for i := 0; i < rs.Len(); i++ {
+		t := rs.At(i).Type()
+		n := len(e.layout(t))
+		var ref Term
+		if res != nil && off < len(res.C) && declaredFresh[res.C[off].S] {
+			ref = res.C[off]
+		}
+		off += n
+		switch u := t.Underlying().(type) {
+		case *types.Slice:
+			if ref.S != "" {
+				for j := range e.layout(u.Elem()) {
+					key, _ := e.heapKey("M", u.Elem(), j)
+					directs = append(directs, direct{key, ref})
+				}
+				walk(u.Elem(), 1)
+				continue
+			}
+		case *types.Pointer:
+			el := u.Elem()
+			if _, isArr := el.Underlying().(*types.Array); !isArr && ref.S != "" {
+				for j := range e.layout(el) {
+					key, _ := e.heapKey("H", el, j)
+					directs = append(directs, direct{key, ref})
+				}
+				if !isGhostType(el) {
+					walk(el, 1)
+				}
+				continue
+			}
+		}
+		walk(t, 0)
+	}
+	for _, key := range sortedKeys(general) {
 		old := x.heapGet(fr.cur, key)
 		nw := c.Fresh("Hc_"+shortKey(key), old.Sort)
-		r := Term{"r$f", SInt}
+		r := Term{S: "r$f", Sort: SInt}
 		c.Assume(Forall([]Term{r}, Implies(Lt(r, pre.alloc), Eq(Select(nw, r), Select(old, r))), Select(nw, r)))
 		c.Assume(e.rangeAxiom(key, nw))
 		x.heapSetFresh(fr.cur, key, nw)
+	}
+	for _, d := range directs {
+		if general[d.key] {
+			continue
+		}
+		old := x.heapGet(fr.cur, d.key)
+		nv := c.Fresh("fr_"+shortKey(d.key), ElemSort(old.Sort))
+		if strings.HasPrefix(d.key, "M:") {
+			c.Assume(e.rowRangeAxiom(d.key, nv))
+		} else if cp, ok := e.heapComps[d.key]; ok && cp.Kind == "int" && cp.Lo != nil {
+			c.Assume(And(Le(BigLit(cp.Lo), nv), Le(nv, BigLit(cp.Hi))))
+		}
+		// the store is skipped for a nil result (reference 0 has no object)
+		nt := c.Name("Hs", Store(old, d.ref, nv))
+		x.heapSetFresh(fr.cur, d.key, nt)
+		x.invalidateContent(fr.cur, d.ref)
+	}
+	// results declared fresh (unconditionally, "fresh(x)" as a top-level conjunct) are born now
+	for _, en := range fc.Ensures {
+		markFresh(en.E, func(name string) {
+			if v, ok := fr.freshNames[name]; ok && v != nil && len(v.C) > 0 {
+				c.birth[v.C[0].S] = maxIndex(v.C[0].S)
+			}
+		})
+	}
+}
+
+func markFresh(e Expr, f func(string)) {
+	switch n := e.(type) {
+	case *EBin:
+		if n.Op == "&&" {
+			markFresh(n.X, f)
+			markFresh(n.Y, f)
+		}
+	case *ECall:
+		if id, ok := n.Fn.(*EIdent); ok && id.Name == "fresh" && len(n.Args) == 1 {
+			if a, ok := n.Args[0].(*EIdent); ok {
+				f(a.Name)
+			}
+		}
 	}
 }
